@@ -121,3 +121,79 @@ Definition fp_wf_layout (a : arch) (iv : Z -> bool) (base : Z) (fs : list frame_
   (negb (a_strip a) || (base + a_pw a * (total_words fs 1 + 8) <? 2 ^ 47)).
 Definition fp_layout (a : arch) (base ip0 : Z) (fs : list frame_spec) : regs * validity * memory :=
   (ctx_regs ip0 base base, VAll, mk_mem a base (fp_words a base fs)).
+
+(* ---- technique per frame (round 5): CFI-described and scan-findable frames mixed in one stack.
+   Per call: [fill words][return address].  A CFI frame's fill words are arbitrary (the technique never looks at
+   them); a scan frame's fill is [skipped words: arbitrary][scanned words: 0], the skipped part being the MIN_ARGS
+   words of mips32 for every callee but the context frame.  [ms_tech f] is the technique that recovers the caller
+   of the frame whose lowest word is the first fill word of [f]. *)
+Inductive tech := TkCfi | TkScan.
+Record mspec := { ms_tech : tech; ms_fill : list Z; ms_ra : Z }.
+Definition ms_len (f : mspec) : Z := Z.of_nat (length (ms_fill f)).
+
+Fixpoint mix_words (fs : list mspec) : list Z :=
+  match fs with [] => [] | f :: t => ms_fill f ++ ms_ra f :: mix_words t end.
+Fixpoint mix_total (fs : list mspec) : Z :=
+  match fs with [] => 0 | f :: t => ms_len f + 1 + mix_total t end.
+
+(* validity and registers of the caller, from those of the callee *)
+Definition mix_next_valid (a : arch) (t : tech) (v : validity) : validity :=
+  match t with
+  | TkCfi => VSome (forwarded a v ++ [a_cfi_sp_name a; a_cfi_ip_name a])
+  | TkScan => plain_valid a
+  end.
+Definition mix_next_gp (t : tech) (gp : list Z) : list Z := match t with TkCfi => gp | TkScan => [] end.
+Definition mix_trust (t : tech) : trust := match t with TkCfi => TCfi | TkScan => TScan end.
+Definition mix_frame (a : arch) (t : tech) (v : validity) (gp : list Z) (sp ra : Z) : frame :=
+  {| f_instr := ra - a_adj a; f_resume := ra; f_trust := mix_trust t;
+     f_regs := {| r_ip := ra; r_sp := sp; r_fp := 0; r_lr := 0; r_gp := mix_next_gp t gp |};
+     f_valid := mix_next_valid a t v |}.
+Fixpoint mix_chain (a : arch) (v : validity) (gp : list Z) (base off : Z) (fs : list mspec) : list frame :=
+  match fs with
+  | [] => []
+  | f :: t => mix_frame a (ms_tech f) v gp (base + a_pw a * (off + ms_len f + 1)) (ms_ra f)
+              :: mix_chain a (mix_next_valid a (ms_tech f) v) (mix_next_gp (ms_tech f) gp) base (off + ms_len f + 1) t
+  end.
+
+(* the abstract correct symbol-file oracle of a mixed stack: answers (caller sp, return address, everything else
+   forwarded) for the frames described by CFI, None for the others *)
+Fixpoint mix_lookup (pw base off : Z) (fs : list mspec) (sp : Z) : option (tech * Z * Z) :=
+  match fs with
+  | [] => None
+  | f :: t => if sp =? base + pw * off then Some (ms_tech f, base + pw * (off + ms_len f + 1), ms_ra f)
+              else mix_lookup pw base (off + ms_len f + 1) t sp
+  end.
+Definition mix_cfi_correct (a : arch) (base : Z) (fs : list mspec) (callee : frame) (_ : option frame) (fwd : list Z)
+  : option (regs * list Z) :=
+  match mix_lookup (a_pw a) base 0 fs (r_sp (f_regs callee)) with
+  | Some (TkCfi, sp', ra) =>
+      let r := f_regs callee in
+      Some ({| r_ip := ra; r_sp := sp'; r_fp := r_fp r; r_lr := r_lr r; r_gp := r_gp r |},
+            fwd ++ [a_cfi_sp_name a; a_cfi_ip_name a])
+  | _ => None
+  end.
+
+(* the boolean precondition.  [ctx]: the callee is the context frame; [instr]: the callee's lookup address *)
+Definition words_in_range (a : arch) (ws : list Z) : bool := forallb (fun w => (0 <=? w) && (w <? 2 ^ a_bits a)) ws.
+Definition all_zero (ws : list Z) : bool := forallb (Z.eqb 0) ws.
+Definition is_some {A} (o : option A) : bool := match o with Some _ => true | None => false end.
+Fixpoint mix_frames_ok (a : arch) (iv : Z -> bool) (module_at : Z -> option Z) (ctx : bool) (instr : Z) (fs : list mspec) : bool :=
+  match fs with
+  | [] => true
+  | f :: t =>
+      words_in_range a (ms_fill f) && (a_cutoff a <=? ms_ra f) && (ms_ra f <? 2 ^ a_bits a) &&
+      (match ms_tech f with
+       | TkCfi => is_some (module_at instr) && (negb (a_strip a) || (ms_ra f <? 2 ^ 47))
+       | TkScan =>
+           let lo := if ctx then 0 else scan_skip_words a in
+           let win := if ctx then a_scan_context a else a_scan_default a in
+           (lo <=? ms_len f) && (ms_len f - lo <? win) && all_zero (skipn (Z.to_nat lo) (ms_fill f)) &&
+           a_pre_ok a (ms_ra f) && iv (ms_ra f)
+       end) &&
+      mix_frames_ok a iv module_at false (ms_ra f - a_adj a) t
+  end.
+Definition mix_wf_layout (a : arch) (iv : Z -> bool) (module_at : Z -> option Z) (base ip0 : Z) (fs : list mspec) : bool :=
+  mix_frames_ok a iv module_at true ip0 fs && negb (a_pre_ok a 0 && iv 0) &&
+  (a_pw a <? base) && (base + a_pw a * mix_total fs <? 2 ^ a_bits a).
+Definition mix_layout (a : arch) (base ip0 : Z) (gp0 : list Z) (fs : list mspec) : regs * validity * memory :=
+  ({| r_ip := ip0; r_sp := base; r_fp := 0; r_lr := 0; r_gp := gp0 |}, VAll, mk_mem a base (mix_words fs)).
